@@ -38,6 +38,7 @@ Extraction "skv_model.ml"
   VlogPtr.vloc_inline VlogPtr.vloc_pointer_of VlogPtr.maybe_separate VlogPtr.vlog_params_ok VlogPtr.vheader_bytes VlogPtr.nlen
   Vlog.vs0 Vlog.vs_cleanup Vlog.venc_classify Vlog.set_tables Vlog.min_oldest Vlog.table_oldest Vlog.find_file Vlog.find_table
   VlogInst.vlogi_step VlogInst.vlogz_step VlogInst.vlogi_resolve VlogInst.vlogz_resolve VlogInst.vlogi_append VlogInst.vlogi_read VlogInst.vlogi_entry
-  VlogInst.vlogi_vs_append VlogInst.vlogi_vs_get VlogInst.vlogi_run VlogInst.vlogz_run
+  VlogInst.vlogi_vs_append VlogInst.vlogi_vs_get VlogInst.vlogi_vs_get_rule VlogInst.vlogi_ds_step VlogInst.vlogi_run VlogInst.vlogz_run
+  Vlog.cut_file Vlog.update_file VlogParams.VLOG_CACHE_HIT_CHECKED
   VlogOpen.vopen_file VlogOpen.vwriter_open VlogParams.VLOG_OPEN_EMPTIES_TORN_HEADER
   VlogParams.VP_SIZE VlogParams.VL_BIT_VALUE_POINTER VlogParams.VL_VERSION VlogParams.VP_VERSION VlogParams.VLOG_FORMAT_VERSION.
